@@ -15,7 +15,7 @@ theorem mem_axisKeys {f : MField} {a : Key} : a ∈ f.axisKeys ↔ ∃ ka ∈ f.
   simp [MField.axisKeys]
 
 /-- A construct spanning an axis outside the data is the only one there and spans just it. -/
-theorem span_outside {f : MField} (hwf : WFField f) {a : Key} (hd : a ∉ f.dataAxes) {e : Entry}
+theorem span_outside {f : MField} (hwf : WFFieldB f) {a : Key} (hd : a ∉ f.dataAxes) {e : Entry}
     (he : e ∈ f.cons) (ha : a ∈ e.axes) :
     e.axes = [a] ∧ f.spanning a = [e] ∧
       ((e.con.ctype = .dim ∧ (e.con.data.map (·.isStr)) = some false)
@@ -33,7 +33,7 @@ theorem span_outside {f : MField} (hwf : WFField f) {a : Key} (hd : a ∉ f.data
     obtain ⟨_, h2, h3⟩ := h a ha
     exact ⟨hax, h2, h3⟩
 
-theorem axisStep_wf (o : Opts) (ho : o.scalar = true) (f : MField) (hwf : WFField f) (a : Key) (ha : a ∈ f.axisKeys)
+theorem axisStep_wf (o : Opts) (ho : o.scalar = true) (f : MField) (hwf : WFFieldB f) (a : Key) (ha : a ∈ f.axisKeys)
     (R : List (Key × Role)) :
     axisStep o f ⟨f.dataAxes, f.dataAxes, R⟩ a = ⟨f.dataAxes, f.dataAxes, R ++ [(a, wfRole f a)]⟩ := by
   unfold axisStep wfRole
@@ -56,7 +56,7 @@ theorem axisStep_wf (o : Opts) (ho : o.scalar = true) (f : MField) (hwf : WFFiel
       have hcf : f.dataAxes.contains a = false := by simpa using hc
       obtain ⟨ka, hka, hk⟩ := mem_axisKeys.mp ha
       have hwf' := hwf
-      obtain ⟨_, _, _, _, hcons, haxes⟩ := hwf'
+      obtain ⟨_, _, _, _, hcons, haxes, _⟩ := hwf'
       have hne : f.spanning a ≠ [] := by
         have := (haxes ka hka (by rw [hk]; exact hd)).2.2
         rw [hk] at this
@@ -86,7 +86,7 @@ theorem axisStep_wf (o : Opts) (ho : o.scalar = true) (f : MField) (hwf : WFFiel
         simp [haux, hax]
       simp [hd, hsp, hex]
 
-theorem foldl_axisStep_wf (o : Opts) (ho : o.scalar = true) (f : MField) (hwf : WFField f) (l : List Key)
+theorem foldl_axisStep_wf (o : Opts) (ho : o.scalar = true) (f : MField) (hwf : WFFieldB f) (l : List Key)
     (hl : ∀ a ∈ l, a ∈ f.axisKeys) (R : List (Key × Role)) :
     l.foldl (axisStep o f) ⟨f.dataAxes, f.dataAxes, R⟩ = ⟨f.dataAxes, f.dataAxes, R ++ l.map (fun a => (a, wfRole f a))⟩ := by
   induction l generalizing R with
@@ -96,13 +96,13 @@ theorem foldl_axisStep_wf (o : Opts) (ho : o.scalar = true) (f : MField) (hwf : 
     simp
 
 /-- The loop over the axes of a well-formed field. -/
-theorem axesPhase_wf (o : Opts) (ho : o.scalar = true) (f : MField) (hwf : WFField f) :
+theorem axesPhase_wf (o : Opts) (ho : o.scalar = true) (f : MField) (hwf : WFFieldB f) :
     axesPhase o f = ⟨f.dataAxes, f.dataAxes, (sortKeys f.axisKeys).map (fun a => (a, wfRole f a))⟩ := by
   unfold axesPhase
   rw [foldl_axisStep_wf o ho f hwf _ (fun a ha => mem_sortKeys.mp ha)]
   simp
 
-theorem axisStepOld_wf (o : Opts) (ho : o.scalar = true) (f : MField) (hwf : WFField f) (a : Key) (ha : a ∈ f.axisKeys)
+theorem axisStepOld_wf (o : Opts) (ho : o.scalar = true) (f : MField) (hwf : WFFieldB f) (a : Key) (ha : a ∈ f.axisKeys)
     (R : List (Key × Role)) :
     axisStepOld o f ⟨f.dataAxes, f.dataAxes, R⟩ a = ⟨f.dataAxes, f.dataAxes, R ++ [(a, wfRole f a)]⟩ := by
   unfold axisStepOld wfRole
@@ -125,7 +125,7 @@ theorem axisStepOld_wf (o : Opts) (ho : o.scalar = true) (f : MField) (hwf : WFF
       have hcf : f.dataAxes.contains a = false := by simpa using hc
       obtain ⟨ka, hka, hk⟩ := mem_axisKeys.mp ha
       have hwf' := hwf
-      obtain ⟨_, _, _, _, hcons, haxes⟩ := hwf'
+      obtain ⟨_, _, _, _, hcons, haxes, _⟩ := hwf'
       have hne : f.spanning a ≠ [] := by
         have := (haxes ka hka (by rw [hk]; exact hd)).2.2
         rw [hk] at this
@@ -155,7 +155,7 @@ theorem axisStepOld_wf (o : Opts) (ho : o.scalar = true) (f : MField) (hwf : WFF
         simp [haux, hax]
       simp [hd, hsp, hex]
 
-theorem foldl_axisStepOld_wf (o : Opts) (ho : o.scalar = true) (f : MField) (hwf : WFField f) (l : List Key)
+theorem foldl_axisStepOld_wf (o : Opts) (ho : o.scalar = true) (f : MField) (hwf : WFFieldB f) (l : List Key)
     (hl : ∀ a ∈ l, a ∈ f.axisKeys) (R : List (Key × Role)) :
     l.foldl (axisStepOld o f) ⟨f.dataAxes, f.dataAxes, R⟩ = ⟨f.dataAxes, f.dataAxes, R ++ l.map (fun a => (a, wfRole f a))⟩ := by
   induction l generalizing R with
@@ -165,7 +165,7 @@ theorem foldl_axisStepOld_wf (o : Opts) (ho : o.scalar = true) (f : MField) (hwf
     simp
 
 /-- The loop over the axes of a well-formed field. -/
-theorem axesPhaseOld_wf (o : Opts) (ho : o.scalar = true) (f : MField) (hwf : WFField f) :
+theorem axesPhaseOld_wf (o : Opts) (ho : o.scalar = true) (f : MField) (hwf : WFFieldB f) :
     axesPhaseOld o f = ⟨f.dataAxes, f.dataAxes, (sortKeys f.axisKeys).map (fun a => (a, wfRole f a))⟩ := by
   unfold axesPhaseOld
   rw [foldl_axisStepOld_wf o ho f hwf _ (fun a ha => mem_sortKeys.mp ha)]
